@@ -20,25 +20,35 @@
      * -fail does NOT make the run read-only: loose files are still rewritten, and the run fails when any file
        changed -- that failure takes precedence over parse errors;
      * only the first path argument is used (Run takes args.Files[0]).                                          *)
-EXTENDS Naturals, FiniteSets, TLC, Json
+EXTENDS Naturals, FiniteSets
 
-CONSTANTS Files,       \* names of the files in the directory
-          MaxRuns,     \* runs per behaviour
-          RunRewrites  \* TRUE: as coded.  FALSE: a defective design in which an in-place run reports but does not write
+CONSTANTS
+    \* @type: Set(Str);
+    Files,       \* names of the files in the directory
+    \* @type: Int;
+    MaxRuns,     \* runs per behaviour
+    \* @type: Bool;
+    RunRewrites  \* TRUE: as coded.  FALSE: a defective design in which an in-place run reports but does not write
                        \* (negative configuration: must be rejected by AfterOneRunFailAgrees)
 
 Kinds == {"fixed", "loose", "invalid", "other", "skipped"}
 
-VARIABLES disk,      \* [Files -> [kind, rewrites]]: what each file holds, how often it has been replaced
-          runs,      \* runs so far
-          inplace,   \* some run so far was an in-place run (no -stdout)
-          last       \* what the last run did and reported (record; "none" before the first run)
+VARIABLES
+    \* @type: Str -> {kind: Str, rewrites: Int};
+    disk,      \* [Files -> [kind, rewrites]]: what each file holds, how often it has been replaced
+    \* @type: Int;
+    runs,      \* runs so far
+    \* @type: Bool;
+    inplace,   \* some run so far was an in-place run (no -stdout)
+    \* @type: {ev: Str, fail: Bool, tostdout: Bool, pre: Str -> {kind: Str, rewrites: Int}, post: Str -> {kind: Str, rewrites: Int}, exit: Str, changed: Set(Str), broken: Set(Str), printed: Set(Str)};
+    last       \* what the last run did and reported (ev = "none" before the first run)
 vars == <<disk, runs, inplace, last>>
 
 Init == /\ disk \in [Files -> [kind : Kinds, rewrites : {0}]]
         /\ runs = 0
         /\ inplace = FALSE
-        /\ last = [ev |-> "none"]
+        /\ last = [ev |-> "none", fail |-> FALSE, tostdout |-> FALSE, pre |-> disk, post |-> disk,
+                   exit |-> "none", changed |-> {}, broken |-> {}, printed |-> {}]
 
 Seen     == {f \in Files : disk[f].kind \in {"fixed", "loose", "invalid"}}   \* what the walker hands to the workers
 Changed  == {f \in Seen : disk[f].kind = "loose"}
@@ -85,7 +95,30 @@ StdoutRunsWriteNothing == [][(last'.ev = "run" /\ last'.tostdout) => disk' = dis
 OkMeansClean == (last.ev = "run" /\ last.exit = "ok") => (last.broken = {} /\ (last.fail => last.changed = {}))
 
 -----------------------------------------------------------------------------
-\* every transition, for the replay harness
-View == <<disk, runs, inplace>>
-EmitEdge == PrintT(<<"EDGE", ToJson(last')>>)      \* ACTION_CONSTRAINT: evaluated on every transition TLC generates
+(* Unbounded argument (Apalache, any number of files and runs): IndInv holds initially and is preserved by every
+   step, and it implies the three state invariants above.
+     apalache-mc check --init=Init    --inv=IndInv --length=0 FmtCmd.tla    (initial states satisfy IndInv)
+     apalache-mc check --init=IndInit --inv=IndInv --length=1 FmtCmd.tla    (IndInv is inductive)
+     apalache-mc check --init=IndInit --inv=IndImplies --length=0 FmtCmd.tla                                   *)
+IndInv == /\ disk \in [Files -> [kind : Kinds, rewrites : {0, 1}]]
+          /\ runs \in Nat
+          /\ inplace \in BOOLEAN
+          /\ \A f \in Files : disk[f].rewrites = 1 => disk[f].kind = "fixed"    \* a replaced file is a fixed point
+          /\ inplace => \A f \in Files : disk[f].kind # "loose"                  \* an in-place run leaves nothing loose
+IndInit == /\ IndInv
+           /\ last = [ev |-> "none", fail |-> FALSE, tostdout |-> FALSE, pre |-> disk, post |-> disk,
+                      exit |-> "none", changed |-> {}, broken |-> {}, printed |-> {}]
+IndImplies == AfterOneRunFailAgrees /\ RewrittenAtMostOnce
+\* the step relation without the bound on the number of runs
+NextUnbounded == \E fail \in BOOLEAN, tostdout \in BOOLEAN :
+    /\ runs' = runs + 1
+    /\ inplace' = (inplace \/ ~tostdout)
+    /\ disk' = IF tostdout \/ ~RunRewrites THEN disk
+               ELSE [f \in Files |-> IF f \in Changed THEN [kind |-> "fixed", rewrites |-> disk[f].rewrites + 1]
+                                     ELSE disk[f]]
+    /\ last' = [ev |-> "run", fail |-> fail, tostdout |-> tostdout, pre |-> disk, post |-> disk',
+                exit |-> Exit(fail), changed |-> Changed, broken |-> Broken,
+                printed |-> IF tostdout THEN Printed ELSE {}]
+
+View == <<disk, runs, inplace>>     \* `last` only reports; it is not part of the state that matters
 =============================================================================
